@@ -178,26 +178,139 @@ fn h64<T: Hash>(t: &T) -> u64 {
     s.finish()
 }
 
-fn convert(ctx: &mut Ctx, t: OwnedTerm) -> OwnedTerm {
+/// a random sequence of clones, moves and conversions through the zero-copy representation; the letters name the steps
+/// for the model (`c` clone, `v` From + to_owned, `w` From + clone of the tree + to_owned, `m` move)
+fn convert(ctx: &mut Ctx, t: OwnedTerm) -> (OwnedTerm, String) {
     let mut t = t;
+    let mut ops = String::new();
     let n = ctx.rng.below(7);
     for _ in 0..n {
         t = match ctx.rng.below(4) {
-            0 => t.clone(),
-            1 => BorrowedTerm::from(&t).to_owned(),
+            0 => {
+                ops.push('c');
+                t.clone()
+            }
+            1 => {
+                ops.push('v');
+                BorrowedTerm::from(&t).to_owned()
+            }
             2 => {
+                ops.push('w');
                 let b = BorrowedTerm::from(&t);
                 let b2 = b.clone();
                 b2.to_owned()
             }
             _ => {
+                ops.push('m');
                 let moved = t;
                 moved
             }
         };
         ctx.count("conversions");
     }
-    t
+    if ops.is_empty() {
+        ops.push('-');
+    }
+    (t, ops)
+}
+
+/// the conversions tied to their models one by one: `From<&OwnedTerm>` (the tree and the ownership of every `Cow`),
+/// `to_owned` and `is_borrowed` of that tree, and the whole sequence
+fn tie_conversions(ctx: &mut Ctx, t: &OwnedTerm, t2: &OwnedTerm, ops: &str) {
+    let tt = term_text(t);
+    ctx.tie("gen", &format!("c10conv {} {}", tt, ops), &term_text(t2));
+    let b = BorrowedTerm::from(t);
+    let tree = crate::c13::tree_arg(&b);
+    ctx.tie("gen", &format!("c10from {}", tt), &tree);
+    ctx.tie("gen", &format!("c10own {}", tree), &term_text(&b.to_owned()));
+    ctx.tie("gen", &format!("c10isb {}", tree), if b.is_borrowed() { "true" } else { "false" });
+    // judged independently of the model: the tree borrows exactly when one of its `Cow`s is borrowed
+    let fl = tree.rsplit(' ').next().unwrap_or("-");
+    ctx.prop("c10-is-borrowed-wrong", &format!("c10cow {} {}", fl, b.is_borrowed()), "ok");
+    ctx.count(if b.is_borrowed() { "from_tree_borrows" } else { "from_tree_owns_everything" });
+}
+
+/// the first identifier of a term that carries preserved bytes (depth first, in encoding order)
+fn first_local(t: &OwnedTerm) -> Option<OwnedTerm> {
+    match t {
+        OwnedTerm::Pid(p) if p.local_ext_bytes.is_some() => Some(t.clone()),
+        OwnedTerm::Port(p) if p.local_ext_bytes.is_some() => Some(t.clone()),
+        OwnedTerm::Reference(p) if p.local_ext_bytes.is_some() => Some(t.clone()),
+        OwnedTerm::Tuple(l) | OwnedTerm::List(l) => l.iter().find_map(first_local),
+        OwnedTerm::ImproperList { elements, tail } => elements.iter().find_map(first_local).or_else(|| first_local(tail)),
+        OwnedTerm::Map(m) => m.iter().find_map(|(k, v)| first_local(k).or_else(|| first_local(v))),
+        OwnedTerm::InternalFun(f) => {
+            if f.pid.local_ext_bytes.is_some() {
+                Some(OwnedTerm::Pid(f.pid.clone()))
+            } else {
+                f.free_vars.iter().find_map(first_local)
+            }
+        }
+        _ => None,
+    }
+}
+
+fn atom(s: &str) -> OwnedTerm {
+    OwnedTerm::Atom(Atom::new(s))
+}
+
+/// a term the application builds around a received identifier (the reply to a request, a monitor message, a state map)
+fn reply_around(ctx: &mut Ctx, id: &OwnedTerm) -> (OwnedTerm, &'static str) {
+    match ctx.rng.below(7) {
+        0 => (OwnedTerm::Tuple(vec![atom("rex"), id.clone()]), "reply-tuple"),
+        1 => (OwnedTerm::Tuple(vec![atom("$gen_call"), OwnedTerm::Tuple(vec![id.clone(), OwnedTerm::List(vec![atom("alias"), id.clone()])]), atom("req")]), "reply-gen-call"),
+        2 => (OwnedTerm::List(vec![OwnedTerm::Integer(1), id.clone(), OwnedTerm::Nil]), "reply-list"),
+        3 => (OwnedTerm::ImproperList { elements: vec![atom("h")], tail: Box::new(id.clone()) }, "reply-tail"),
+        4 => {
+            let mut m = BTreeMap::new();
+            m.insert(id.clone(), atom("v"));
+            m.insert(atom("k"), id.clone());
+            (OwnedTerm::Map(m), "reply-map")
+        }
+        5 => {
+            let pid = match id {
+                OwnedTerm::Pid(p) => p.clone(),
+                _ => ExternalPid::new(Atom::new("a@h"), 1, 2, 3),
+            };
+            (
+                OwnedTerm::InternalFun(Box::new(InternalFun::new(1, [3u8; 16], 4, 1, Atom::new("m"), 5, 6, pid, vec![id.clone()]))),
+                "reply-fun",
+            )
+        }
+        _ => (id.clone(), "reply-bare"),
+    }
+}
+
+/// control tuples around received identifiers: `from_term` then `to_term` / `into_term` must hand the identifiers on as they are
+/// (tied to the control model through C08's `c08rt` request, which answers `=` when the text — preserved bytes included — is the same)
+fn control_around(ctx: &mut Ctx, id: &OwnedTerm) {
+    use edp_client::control::ControlMessage;
+    let other = OwnedTerm::Pid(ExternalPid::new(Atom::new("b@h"), 7, 8, 9));
+    let cands: Vec<OwnedTerm> = vec![
+        OwnedTerm::Tuple(vec![OwnedTerm::Integer(1), id.clone(), other.clone()]),
+        OwnedTerm::Tuple(vec![OwnedTerm::Integer(2), atom(""), id.clone()]),
+        OwnedTerm::Tuple(vec![OwnedTerm::Integer(3), other.clone(), id.clone(), atom("normal")]),
+        OwnedTerm::Tuple(vec![OwnedTerm::Integer(6), id.clone(), atom(""), atom("rex")]),
+        OwnedTerm::Tuple(vec![OwnedTerm::Integer(22), other.clone(), id.clone()]),
+        OwnedTerm::Tuple(vec![OwnedTerm::Integer(19), other.clone(), id.clone(), id.clone()]),
+        OwnedTerm::Tuple(vec![OwnedTerm::Integer(21), id.clone(), other.clone(), id.clone(), atom("noproc")]),
+        OwnedTerm::Tuple(vec![OwnedTerm::Integer(8), other, id.clone(), OwnedTerm::Tuple(vec![atom("shutdown"), id.clone()])]),
+    ];
+    let t = ctx.rng.pick(&cands).clone();
+    let Ok(m) = ControlMessage::from_term(&t) else {
+        ctx.count("control_not_parsed");
+        return;
+    };
+    ctx.count("control_roundtrips");
+    let to = m.to_term();
+    let into = m.clone().into_term();
+    let (a, b, c) = (erltf::encode(&t).ok(), erltf::encode(&to).ok(), erltf::encode(&into).ok());
+    if a.is_none() || a != b || a != c {
+        ctx.fail("c10-control-changes-identifier", &format!("{} to_term={} into_term={}", term_text(&t), term_text(&to), term_text(&into)));
+    }
+    let to_s = if term_text(&to) == term_text(&t) { "=".to_string() } else { term_text(&to) };
+    let into_s = if term_text(&into) == term_text(&to) { "=".to_string() } else { term_text(&into) };
+    ctx.tie("gen", &format!("c08rt {}", term_text(&t)), &format!("ok {} {} {}", crate::c08::msg_text(&m), to_s, into_s));
 }
 
 pub fn run(ctx: &mut Ctx) {
@@ -217,9 +330,27 @@ pub fn run(ctx: &mut Ctx) {
             ctx.fail("c10-own-bytes-rejected", &format!("{} {}", hex(&bytes), dr));
             continue;
         };
-        let t2 = convert(ctx, t.clone());
+        let (t2, ops) = convert(ctx, t.clone());
+        tie_conversions(ctx, &t, &t2, &ops);
         let (er, eb) = crate::c01::enc_result(&t2);
         ctx.tie("gen", &format!("enc {}", term_text(&t2)), &er);
+        // the received identifier, converted, put into a new term by the application and sent: the bytes as received
+        // (`idb`) occur in what is written — judged by the driver's `c10occurs`
+        if local {
+            match first_local(&t2) {
+                None => ctx.fail("c10-identifier-lost", &format!("in={} decoded={}", hex(&bytes), term_text(&t2))),
+                Some(id) => {
+                    let (reply, rname) = reply_around(ctx, &id);
+                    ctx.count(&format!("context_{}", rname));
+                    let (reply2, _) = convert(ctx, reply);
+                    match crate::c01::enc_result(&reply2) {
+                        (_, Some(out)) => ctx.prop("c10-not-reemitted", &format!("c10occurs {} {}", hex(&idb), hex(&out)), "ok"),
+                        (e, None) => ctx.fail("c10-not-reemitted", &format!("reply {} not encoded: {}", term_text(&reply2), e)),
+                    }
+                    control_around(ctx, &id);
+                }
+            }
+        }
         // the property: identifier-canonical input (modern form or LOCAL_EXT around anything) comes back byte for byte
         let canonical = local || !kind.ends_with("legacy") && kind != "port-new";
         if canonical {
@@ -317,11 +448,13 @@ pub fn run(ctx: &mut Ctx) {
     for _ in 0..n / 3 {
         let t = gen_term(&mut ctx.rng, &cfg, 0);
         let Ok(b) = erltf::encode(&t) else { continue };
-        let Ok(d) = erltf::decode(&b) else {
+        let (dr, Some(d)) = crate::c01::dec_result(&b) else {
             ctx.fail("c10-own-bytes-rejected", &hex(&b));
             continue;
         };
-        let d2 = convert(ctx, d);
+        ctx.tie("gen", &format!("dec {} -", hexarg(&b)), &dr);
+        let (d2, ops) = convert(ctx, d.clone());
+        tie_conversions(ctx, &d, &d2, &ops);
         if erltf::encode(&d2).ok().as_deref() != Some(&b[..]) {
             ctx.fail("c10-not-reemitted", &format!("term {}", term_text(&t)));
         }
